@@ -251,3 +251,21 @@ Example savepoint_histories_recover :
   completed (sto (fst (run c s [OTick; OAckOp 1 2; OAckSr 0 2]))) = 2 /\
   completed (sto (fst (run c s [OSavepoint; OAckSr 0 2; OAckOp 1 2]))) = 2.
 Proof. intros h [-> | ->]; vm_compute; repeat split; reflexivity. Qed.
+
+(* ---- the keyed state of an operator that is redeployed in place (model ost / sstep): for EVERY history of keyed
+   events, complete checkpoints and redeployments: a redeployment whose request carries no checkpoint leaves the empty
+   state - every key's count is 0, whatever was applied for the failed assembly -; a redeployment from checkpoint id
+   leaves exactly the state recorded when that checkpoint was taken; a checkpoint records the state it is taken in; the
+   handler is given the number of applications of the key in the current state. *)
+Theorem redeploy_restores_checkpoint_state : forall l,
+  let s := fst (srun ost0 l) in
+  (forall k, applied (fst (sstep s (SRedeploy 0))) = [] /\ snd (sstep (fst (sstep s (SRedeploy 0))) (SEv k)) = 0) /\
+  (forall id x, snap_get id (snaps s) = Some x -> applied (fst (sstep s (SRedeploy id))) = x) /\
+  (snap_get (next_id s) (snaps (fst (sstep s SCkpt))) = Some (applied s)) /\
+  (forall k, snd (sstep s (SEv k)) = count k (applied s)).
+Proof. exact redeploy_restores_checkpoint_state_proof. Qed.
+Print Assumptions redeploy_restores_checkpoint_state.
+
+Example state_history :
+  snd (srun ost0 [SEv 1; SEv 1; SCkpt; SEv 1; SEv 2; SRedeploy 1; SEv 1; SEv 2; SRedeploy 0; SEv 1]) = [0; 1; 1; 2; 0; 0; 2; 0; 0; 0].
+Proof. vm_compute. reflexivity. Qed.
